@@ -2,7 +2,7 @@
 
 use crate::async_vfs::{AsyncFileSystem, AsyncVfsPath, SeekAndRead};
 use crate::error::VfsErrorKind;
-use crate::{VfsMetadata, VfsResult};
+use crate::{VfsFileType, VfsMetadata, VfsResult};
 
 use async_std::io::Write;
 use async_trait::async_trait;
@@ -120,6 +120,12 @@ impl AsyncFileSystem for AsyncOverlayFS {
 
     async fn create_dir(&self, path: &str) -> VfsResult<()> {
         self.ensure_has_parent(path).await?;
+        if self.exists(path).await? {
+            return match self.metadata(path).await?.file_type {
+                VfsFileType::File => Err(VfsErrorKind::FileExists.into()),
+                VfsFileType::Directory => Err(VfsErrorKind::DirectoryExists.into()),
+            };
+        }
         self.write_path(path)?.create_dir().await?;
         let whiteout_path = self.whiteout_path(path)?;
         if whiteout_path.exists().await? {
